@@ -39,11 +39,18 @@ pub(crate) struct Chip {
     pub rx_continuous: bool,
     /// the call under test is LoRa::listen (RSSI measurement without packet reception)
     pub listen_only: bool,
+    /// last packet fetched from the chip: length, and the byte delivered at the watched index
+    /// rx_k (an index chosen by the harness: universally quantified by the solver, R5)
+    pub rx_n: u8,
+    pub rx_k: usize,
+    pub rx_byte: u8,
+    pub rx_fetched: bool,
 }
 pub(crate) static mut CHIP: Uq<Chip> = Uq { magic: 0x6C72760032E6EFE0, v: Chip {
     mode: ChipMode::Sleep, duty_sleeping: false, init: false, txpower: false, irq: false, modulation: false,
     packet: false, freq: false, payload: false, asleep_cmd: false, dep_missing: false, calls: 0,
     fail_at: usize::MAX, fail_at2: usize::MAX, irq_script: [2; 3], irq_pos: 0, rx_continuous: false, listen_only: false,
+    rx_n: 0, rx_k: 0, rx_byte: 0, rx_fetched: false,
 } };
 pub(crate) fn chip() -> &'static mut Chip {
     unsafe { &mut *core::ptr::addr_of_mut!(CHIP.v) }
@@ -196,9 +203,21 @@ impl RadioKind for ModelChip {
         }
         Ok(())
     }
-    async fn get_rx_payload(&mut self, _p: &PacketParams, _b: &mut [u8]) -> Result<u8, RadioError> {
+    async fn get_rx_payload(&mut self, _p: &PacketParams, b: &mut [u8]) -> Result<u8, RadioError> {
         self.cmd()?;
-        Ok(kani::any())
+        let n: u8 = kani::any();
+        // contract of the chip drivers' get_rx_payload (decided by the C18 rx_payload_* harnesses on
+        // the real Sx126x / Sx127x code): Ok(n) => n <= buffer length, bytes [..n] written, rest untouched
+        kani::assume(n as usize <= b.len());
+        let c = chip();
+        c.rx_n = n;
+        c.rx_fetched = true;
+        if c.rx_k < n as usize {
+            let v: u8 = kani::any();
+            b[c.rx_k] = v;
+            c.rx_byte = v;
+        }
+        Ok(n)
     }
     async fn get_rx_packet_status(&mut self) -> Result<PacketStatus, RadioError> {
         self.cmd()?;
@@ -275,7 +294,7 @@ impl RadioKind for ModelChip {
     }
 }
 
-fn any_rx_mode() -> RxMode {
+pub(crate) fn any_rx_mode() -> RxMode {
     let k: u8 = kani::any();
     match k % 3 {
         0 => RxMode::Single(kani::any()),
@@ -283,7 +302,7 @@ fn any_rx_mode() -> RxMode {
         _ => RxMode::DutyCycle(DutyCycleParams { rx_time: kani::any(), sleep_time: kani::any() }),
     }
 }
-fn any_mode() -> RadioMode {
+pub(crate) fn any_mode() -> RadioMode {
     let k: u8 = kani::any();
     match k % 7 {
         0 => RadioMode::Sleep,
@@ -301,7 +320,7 @@ fn any_mode() -> RadioMode {
 ///   chip in a duty-cycle sleep phase    => driver mode is Receive(DutyCycle)
 ///   driver mode Standby                 => chip in standby
 ///   !cold_start                         => init_lora, PA/ramp and IRQ setup done since the last cold start
-fn any_coupled() -> LoRa<ModelChip, MockDelay> {
+pub(crate) fn any_coupled() -> LoRa<ModelChip, MockDelay> {
     let c = chip();
     let m: u8 = kani::any();
     c.mode = match m % 5 { 0 => ChipMode::Sleep, 1 => ChipMode::Standby, 2 => ChipMode::Tx, 3 => ChipMode::Rx, _ => ChipMode::Cad };
@@ -317,12 +336,13 @@ fn any_coupled() -> LoRa<ModelChip, MockDelay> {
     c.irq_pos = 0;
     c.rx_continuous = kani::any();
     c.listen_only = false;
+    c.rx_n = 0; c.rx_k = kani::any(); c.rx_byte = 0; c.rx_fetched = false;
     let lora = LoRa { radio_kind: ModelChip, delay: MockDelay, radio_mode: any_mode(), sync_word: kani::any(), cold_start: kani::any(), calibrate_image: kani::any() };
     kani::assume(inv(&lora));
     lora
 }
 
-fn inv(l: &LoRa<ModelChip, MockDelay>) -> bool {
+pub(crate) fn inv(l: &LoRa<ModelChip, MockDelay>) -> bool {
     let c = chip();
     let asleep = c.mode == ChipMode::Sleep;
     let drv_sleep = l.radio_mode == RadioMode::Sleep;
@@ -340,10 +360,10 @@ fn inv(l: &LoRa<ModelChip, MockDelay>) -> bool {
         && (l.radio_mode != RadioMode::ChannelActivityDetection || (c.init && c.irq && c.modulation && c.freq))
 }
 
-fn any_mp() -> ModulationParams {
+pub(crate) fn any_mp() -> ModulationParams {
     ModulationParams { spreading_factor: SpreadingFactor::_7, bandwidth: Bandwidth::_125KHz, coding_rate: CodingRate::_4_5, low_data_rate_optimize: 0, frequency_in_hz: kani::any() }
 }
-fn any_pp() -> PacketParams {
+pub(crate) fn any_pp() -> PacketParams {
     PacketParams { preamble_length: kani::any(), implicit_header: kani::any(), payload_length: kani::any(), crc_on: kani::any(), iq_inverted: kani::any() }
 }
 
@@ -353,7 +373,7 @@ pub(crate) fn faulted() -> bool {
 }
 
 /// common post-conditions of every API call
-fn post(l: &LoRa<ModelChip, MockDelay>, name: &'static str) {
+pub(crate) fn post(l: &LoRa<ModelChip, MockDelay>, name: &'static str) {
     let c = chip();
     kani::assert(!c.asleep_cmd, "C14: the chip was commanded while asleep without being woken first");
     kani::assert(!c.dep_missing, "C14: a transmission/reception/CAD was started although something it depends on has not been programmed since the last cold start");
@@ -365,7 +385,7 @@ fn post(l: &LoRa<ModelChip, MockDelay>, name: &'static str) {
     let _ = name;
 }
 
-fn wrong_mode_refused<T>(r: &Result<T, RadioError>, calls_before: usize) {
+pub(crate) fn wrong_mode_refused<T>(r: &Result<T, RadioError>, calls_before: usize) {
     kani::assert(matches!(r, Err(RadioError::InvalidRadioMode)), "C14: an operation invoked in the wrong mode must be refused with InvalidRadioMode");
     kani::assert(chip().calls == calls_before, "C14: a refused operation must not command the chip");
 }
@@ -529,4 +549,57 @@ op!(api_set_sync_word, l, {
 //@encodes LoRa::enter_standby
 op!(api_enter_standby, l, {
     let _ = block_on(l.enter_standby());
+});
+//@h id=api_rx props=C14,C18 tier=quick build=phy cost=90 timeout=900
+//@bounds LoRa::rx (start_rx + complete_rx) from every coupled state, IRQ script of 3 outcomes, two fault positions, 16-byte buffer, watched byte index symbolic
+//@encodes LoRa::rx, LoRa::start_rx, LoRa::complete_rx
+//@assumes chip-level get_rx_payload contract (n <= buffer, bytes [..n] written, rest untouched) as decided by the rx_payload_* harnesses
+op!(api_rx, l, {
+    let before = chip().calls;
+    let mode0 = l.radio_mode;
+    let pp = any_pp();
+    let buf0: [u8; 16] = kani::any();
+    let mut buf = buf0;
+    let r = block_on(l.rx(&pp, &mut buf));
+    let c = chip();
+    if !matches!(mode0, RadioMode::Receive(_)) {
+        wrong_mode_refused(&r, before);
+    } else if r.is_err() && !faulted() && mode0 != RadioMode::Receive(RxMode::Continuous) {
+        kani::assert(c.mode == ChipMode::Standby && l.radio_mode == RadioMode::Standby, "C14: after a failed or timed-out reception the chip is in standby and the driver knows it");
+    }
+    if let Ok((n, _)) = r {
+        kani::assert(c.rx_fetched && n == c.rx_n, "C18: the length reported by LoRa::rx is the length of the packet fetched from the chip");
+        if c.rx_k < 16 {
+            let want = if c.rx_k < n as usize { c.rx_byte } else { buf0[c.rx_k] };
+            kani::assert(buf[c.rx_k] == want, "C18: LoRa::rx hands over exactly the fetched bytes and leaves the rest of the buffer untouched");
+        }
+        kani::cover!(n == 16, "full buffer received");
+    } else if c.rx_k < 16 && !c.rx_fetched {
+        kani::assert(buf[c.rx_k] == buf0[c.rx_k], "C18: a reception that delivered nothing leaves the buffer untouched");
+    }
+});
+//@h id=api_get_rx_result props=C14,C18 tier=quick build=phy cost=30 timeout=900
+//@bounds LoRa::get_rx_result from every coupled state, two fault positions, 16-byte buffer
+//@encodes LoRa::get_rx_result
+//@assumes chip-level get_rx_payload contract as above
+op!(api_get_rx_result, l, {
+    let before = chip().calls;
+    let mode0 = l.radio_mode;
+    let pp = any_pp();
+    let buf0: [u8; 16] = kani::any();
+    let mut buf = buf0;
+    // the documented precondition: called after IrqState::Done, i.e. the chip is awake
+    kani::assume(!chip().duty_sleeping);
+    let r = block_on(l.get_rx_result(&pp, &mut buf));
+    let c = chip();
+    if !matches!(mode0, RadioMode::Receive(_)) {
+        wrong_mode_refused(&r, before);
+    }
+    if let Ok((n, _)) = r {
+        kani::assert(c.rx_fetched && n == c.rx_n, "C18: the length reported by get_rx_result is the length of the packet fetched from the chip");
+        if c.rx_k < 16 {
+            let want = if c.rx_k < n as usize { c.rx_byte } else { buf0[c.rx_k] };
+            kani::assert(buf[c.rx_k] == want, "C18: get_rx_result hands over exactly the fetched bytes and leaves the rest untouched");
+        }
+    }
 });
